@@ -35,24 +35,11 @@ impl PathAndQueryWithSkipped {
     pub fn from_config(config: &RouterConfig, path_and_query_str: &str) -> Self {
         let url = sanitize_url(path_and_query_str);
 
-        if !config.ignore_marketing_query_params {
-            return Self {
-                path_and_query_matching: Some(if config.ignore_path_and_query_case {
-                    url.to_lowercase()
-                } else {
-                    url.clone()
-                }),
-                path_and_query: url,
-                original: path_and_query_str.to_string(),
-                skipped_query_params: None,
-            };
-        }
-
         let path_and_query: PathAndQuery = match url.parse() {
             Ok(p) => p,
             Err(err) => {
                 log::error!(
-                    "cannot parse url '{}', cancel ignoring marketing query params: {}",
+                    "cannot parse url '{}', cancel normalizing query params: {}",
                     path_and_query_str,
                     err
                 );
@@ -87,7 +74,7 @@ impl PathAndQueryWithSkipped {
                     query_param.push_str(&utf8_percent_encode(value, QUERY_ENCODE_SET).to_string());
                 }
 
-                if config.marketing_query_params.contains(key) {
+                if config.ignore_marketing_query_params && config.marketing_query_params.contains(key) {
                     if !skipped_query_params.is_empty() {
                         skipped_query_params.push('&')
                     }
